@@ -117,3 +117,68 @@ def describe_zx(d):
             return "scalar((%d+%di)/s2^%d)" % (x["re"], x["im"], x["s"])
         return x["k"]
     return "zx%d: %s" % (d["dom"], " ".join("%s@%d" % (b(l["b"]), l["off"]) for l in d["layers"]))
+
+
+# ---------------------------------------------------------------- mixed circuits (spec/CQ.tla)
+def mixed_box(g):
+    from discopy.quantum import circuit as C
+    from discopy.quantum import gates as G
+    from discopy.quantum import qubit, bit, Measure, Encode, Discard, MixedState, Bits, scalar
+    k = g["k"]
+
+    def ty(t):
+        out = C.Ty()
+        for w in t:
+            out = out @ (qubit if w == "q" else bit)
+        return out
+    if k == "Measure":
+        return Measure(g["n"], destructive=bool(g["f1"]), override_bits=bool(g["f2"]))
+    if k == "Encode":
+        return Encode(g["n"], constructive=bool(g["f1"]), reset_bits=bool(g["f2"]))
+    if k == "Discard":
+        return Discard(ty(g["tl"]))
+    if k == "MixedState":
+        return MixedState(ty(g["tl"]))
+    if k == "Bits":
+        return Bits(*g["bits"])
+    if k == "NOT":
+        return G.ClassicalGate("NOT", 1, 1, [0, 1, 1, 0])
+    if k == "Copy":
+        return G.Copy()
+    if k == "Match":
+        return G.Match()
+    if k == "MSwap":
+        return C.Swap(ty(g["tl"]), ty(g["tr"]))
+    if k == "mscalar":
+        return scalar(complex(g["re"], g["im"]) / (2 ** 0.5) ** g["s"], is_mixed=True)
+    return gate(g)
+
+
+def mixed_circuit(mc):
+    from discopy.quantum import circuit as C
+    from discopy.quantum import qubit, bit
+    ty = C.Ty()
+    for w in mc["ty"]:
+        ty = ty @ (qubit if w == "q" else bit)
+    out = C.Id(ty)
+    for layer in mc["layers"]:
+        box, off = mixed_box(layer["g"]), layer["off"]
+        out = out >> C.Id(out.cod[:off]) @ box @ C.Id(out.cod[off + len(box.dom):])
+    return out
+
+
+def describe_mixed(mc):
+    def g(x):
+        k = x["k"]
+        if k in ("Measure", "Encode"):
+            return "%s(%d,%d,%d)" % (k, x["n"], x["f1"], x["f2"])
+        if k in ("Discard", "MixedState"):
+            return "%s(%s)" % (k, "".join(x["tl"]))
+        if k == "MSwap":
+            return "Swap(%s,%s)" % ("".join(x["tl"]), "".join(x["tr"]))
+        if k in ("Bits", "Ket", "Bra"):
+            return "%s%s" % (k, tuple(x["bits"]))
+        if k in ("scalar", "mscalar"):
+            return "%s((%d+%di)/s2^%d)" % (k, x["re"], x["im"], x["s"])
+        return k + ("(%d/8)" % x["ph"] if k in ("Rx", "Ry", "Rz", "CU1", "CRz", "CRx") else "") + ("+" if x["dg"] else "")
+    return "%s: %s" % ("".join(mc["ty"]) or "-", " ".join("%s@%d" % (g(l["g"]), l["off"]) for l in mc["layers"]))
